@@ -118,11 +118,7 @@ func TestC16Lattice(t *testing.T) {
 	h := hx.Begin(t, "C16", "lattice")
 	try := func(v uint32) {
 		h.Eval(uint64(v), c16Nontrivial(v))
-		if h.WantSample() {
-			h.Sample(c16Case{v})
-		} else {
-			h.Sample(nil)
-		}
+		h.Sample(c16Case{v})
 		err := c16Judge(v)
 		if err == nil {
 			err = c16StoreLoad(v)
